@@ -115,11 +115,13 @@ def stenciled (v : View) : List Ext → View
   | e :: rest => (stenciled (v.blocked e.first e.last).rotated rest).unrotated
 
 /-- `partitioned_aux_(n)` 1423-1431 (D>1), 3014-3020 (D=1):
-    `layout_t<D+1>{layout(), nelems/n, 0, nelems}` then `sub().nelems() /= n`. -/
+    `layout_t<D+1>{layout(), (nelems/n != 0) ? nelems/n : 1, 0, nelems}` then `sub().nelems() /= n`. -/
 def partitioned (v : View) (n : Int) : View :=
   match v.lay with
   | [] => v
-  | d :: sub => ⟨v.base, ⟨d.nelems.tdiv n, 0, d.nelems⟩ :: { d with nelems := d.nelems.tdiv n } :: sub⟩
+  | d :: sub =>
+    let s := d.nelems.tdiv n
+    ⟨v.base, ⟨if s ≠ 0 then s else 1, 0, d.nelems⟩ :: { d with nelems := d.nelems.tdiv n } :: sub⟩
 
 /-- assertions of `partitioned_aux_`: `n != 0`, `nelems % n == 0` -/
 def partitionedAsserts (v : View) (n : Int) : Bool :=
@@ -173,6 +175,10 @@ def diagonal (v : View) : View :=
     | e0 :: e1 :: sub => ⟨v.base, { e1 with nelems := e1.nelems + e0.nelems, stride := e1.stride + e0.stride } :: sub⟩
     | _ => v
   | _ => v
+
+/-- the precondition asserted by view assignment `dst = src` (array_ref.hpp `subarray::operator=` overloads):
+    equal extensions -/
+def assignAssert (dst src : View) : Bool := Exts.eqv dst.exts src.exts
 
 /-- chained brackets `A[i][j]...` -/
 def bracket (v : View) (idx : List Int) : View := idx.foldl index v
